@@ -40,7 +40,10 @@
 //     structure; every other struct type (time.Time, sync.Mutex, netip.Addr,
 //     dns.Msg, caches, …) is abstract: parameters of such types are dropped and
 //     an expression that reads from them (`req.Question[0].Qtype`) becomes an
-//     extra parameter `e<k>_<name>` holding its value;
+//     extra parameter `e<k>_<name>` holding its value; a local defined once
+//     (`x := e`, e call-free) with such a type is dropped in the same way, and
+//     comparing a call-free expression of such a type with nil is a Bool
+//     parameter;
 //   - the spec file may declare such a type *symbolic* ("symbolic":
 //     {"net/netip.Addr": "String", "…/filter.Result": "(Option String)"}): its
 //     values are then carried as values of the given Lean type — `String`: an
@@ -654,7 +657,12 @@ func (c *fctx) opaqueValue(e ast.Expr) ex {
 		return ex{code: n}
 	}
 	c.nOpaque++
-	name := fmt.Sprintf("e%d_%s", c.nOpaque, sanitize(lastName(key)))
+	name := fmt.Sprintf("e%d_%s", c.nOpaque, strings.Map(func(r rune) rune {
+		if r == '_' || r >= '0' && r <= '9' || r >= 'a' && r <= 'z' || r >= 'A' && r <= 'Z' {
+			return r
+		}
+		return -1
+	}, strings.NewReplacer("==", "_is_", "!=", "_not_").Replace(sanitize(lastName(key)))))
 	c.opaque = append(c.opaque, fmt.Sprintf("(%s : %s)", name, lt))
 	c.opaqueVals[key] = name
 	return ex{code: name}
@@ -725,6 +733,9 @@ func (c *fctx) binary(x *ast.BinaryExpr) ex {
 		if id, ok := x.Y.(*ast.Ident); ok && id.Name == "nil" && c.p.info.Uses[id] == types.Universe.Lookup("nil") {
 			if c.isRecvVal(x.X) {
 				return ex{code: fmt.Sprint(x.Op == token.NEQ)}
+			}
+			if c.t.leanType(tx) == "" && !hasCall(x.X) {
+				return c.opaqueValue(x) // nil-ness of an abstract value: a parameter
 			}
 			a := c.expr(x.X)
 			m := "isNone"
@@ -1475,6 +1486,15 @@ func (c *fctx) typeSwitch(x *ast.TypeSwitchStmt, rest []ast.Stmt) string {
 	return out + indent(c.stmts(deflt)) + strings.Repeat(")", closing)
 }
 
+func hasCall(e ast.Expr) (found bool) {
+	ast.Inspect(e, func(n ast.Node) bool {
+		_, isCall := n.(*ast.CallExpr)
+		found = found || isCall
+		return !found
+	})
+	return found
+}
+
 func proj(code string, i, n int) string {
 	// right-nested pairs
 	s := code
@@ -1583,6 +1603,12 @@ func (c *fctx) assignStmt(x *ast.AssignStmt, rest []ast.Stmt) string {
 		return c.assign(x.Lhs[0], c.expr(be), rest, nil)
 	}
 	if len(x.Lhs) == len(x.Rhs) {
+		if id, ok := x.Lhs[0].(*ast.Ident); ok && len(x.Lhs) == 1 && x.Tok == token.DEFINE && id.Name != "_" &&
+			c.t.leanType(c.lhsType(id)) == "" && !hasCall(x.Rhs[0]) {
+			// a local of abstract type is dropped like a parameter of such a
+			// type; what is read from it later becomes an opaque value
+			return c.stmts(rest)
+		}
 		if len(x.Lhs) == 1 {
 			return c.assign(x.Lhs[0], c.exprAs(x.Rhs[0], c.lhsType(x.Lhs[0])), rest, nil)
 		}
